@@ -1432,6 +1432,10 @@ where
     if lba_start.0.checked_add(bpb.total_blocks()).is_none() {
         return Err(Error::FormatError("Volume does not fit the device"));
     }
+    // The FATs come after the boot sector, and there is at least one
+    if bpb.reserved_block_count() == 0 || bpb.num_fats() == 0 {
+        return Err(Error::FormatError("Bad BPB block counts"));
+    }
     let fat_start = BlockCount(u32::from(bpb.reserved_block_count()));
     let second_fat_start = if bpb.num_fats() == 2 {
         Some(fat_start + BlockCount(bpb.fat_size()))
